@@ -618,6 +618,16 @@ func reflectStubs() map[string]StubFn {
 			c.reflectPanic("Elem of " + typeName(t))
 		}
 	})
+	xt("In", func(c *CallCtx, t types.Type) {
+		i := c.ex.concreteInt(c.args[1].(*Term), "Type.In index")
+		c.Return(XType{T: t.Underlying().(*types.Signature).Params().At(i).Type()})
+	})
+	xt("Out", func(c *CallCtx, t types.Type) {
+		i := c.ex.concreteInt(c.args[1].(*Term), "Type.Out index")
+		c.Return(XType{T: t.Underlying().(*types.Signature).Results().At(i).Type()})
+	})
+	xt("NumIn", func(c *CallCtx, t types.Type) { c.Return(BVC(64, uint64(t.Underlying().(*types.Signature).Params().Len()))) })
+	xt("NumOut", func(c *CallCtx, t types.Type) { c.Return(BVC(64, uint64(t.Underlying().(*types.Signature).Results().Len()))) })
 	// the universe object itself is opaque: only its type constructors are modelled
 	xt("Universe", func(c *CallCtx, t types.Type) { c.Return(Ptr{Obj: c.ex.alloc(c.st, &StructV{})}) })
 	m["(*github.com/cosmos72/gomacro/xreflect.Universe).PtrTo"] = func(c *CallCtx) {
